@@ -114,6 +114,10 @@ type Scope struct {
 	generator   IdentifierGenerator
 	aliases     map[pgsql.Identifier]pgsql.Identifier
 	definitions map[pgsql.Identifier]*BoundIdentifier
+
+	// parameterAliases maps cypher parameter symbols to their bound identifiers. Parameters have a namespace of their
+	// own: `$n` and the variable `n` are different things.
+	parameterAliases map[string]pgsql.Identifier
 }
 
 func NewScope() *Scope {
@@ -122,6 +126,8 @@ func NewScope() *Scope {
 		generator:   NewIdentifierGenerator(),
 		aliases:     map[pgsql.Identifier]pgsql.Identifier{},
 		definitions: map[pgsql.Identifier]*BoundIdentifier{},
+
+		parameterAliases: map[string]pgsql.Identifier{},
 	}
 }
 
@@ -148,6 +154,7 @@ func (s *Scope) PruneDefinitions(protectedIdentifiers *pgsql.IdentifierSet) erro
 
 	s.definitions = prunedDefinitions
 	s.aliases = prunedAliases
+	s.parameterAliases = map[string]pgsql.Identifier{}
 
 	// Prune scope to only what's being exported by the with statement
 	currentFrame := s.CurrentFrame()
@@ -186,12 +193,19 @@ func (s *Scope) Snapshot() *Scope {
 		}
 	}
 
+	parameterAliasesCopy := make(map[string]pgsql.Identifier, len(s.parameterAliases))
+	for k, v := range s.parameterAliases {
+		parameterAliasesCopy[k] = v
+	}
+
 	return &Scope{
 		nextFrameID: s.nextFrameID,
 		stack:       stackCopy,
 		generator:   s.generator,
 		aliases:     aliasesCopy,
 		definitions: definitionsCopy,
+
+		parameterAliases: parameterAliasesCopy,
 	}
 }
 
@@ -319,6 +333,18 @@ func (s *Scope) LookupBindings(identifiers ...pgsql.Identifier) ([]*BoundIdentif
 func (s *Scope) Alias(alias pgsql.Identifier, binding *BoundIdentifier) {
 	binding.Alias = models.OptionalValue(alias)
 	s.aliases[alias] = binding.Identifier
+}
+
+func (s *Scope) AliasParameter(symbol string, binding *BoundIdentifier) {
+	s.parameterAliases[symbol] = binding.Identifier
+}
+
+func (s *Scope) ParameterLookup(symbol string) (*BoundIdentifier, bool) {
+	if identifier, aliased := s.parameterAliases[symbol]; aliased {
+		return s.Lookup(identifier)
+	}
+
+	return nil, false
 }
 
 func (s *Scope) Declare(identifier pgsql.Identifier) {
